@@ -364,6 +364,21 @@ def run(ctx: Any, prog: Program) -> None:
         ctx.check('C19.H4', ok_it, fs, walks[0], f'{cn_}.__iter__ returns `{U(walks[0])[:40]}` instead of walk_folder(\'\'): iterating a chain then lists a name once per member that has it, and the extra entries are '
                   'the lower-priority files - a listed file is not what a lookup of its name gives', func=f'{cn_}.__iter__', text=f'{cn_}.__iter__ is walk_folder(\'\')')
     ctx.shape('C19.H4', n_it >= 1, fs, fs.tree, 'FileSystem.__iter__ not found', text='__iter__ definitions')
+    # ---- H4 (no member is passed over): a chain lookup asks every member in order ------------------------------------------------------------
+    # FileSystemChain._get_file / _file_exists go on to the next member only because the current one does not have the name (its lookup
+    # raised FileNotFoundError / answered False).  A `continue` under a test on the name or the prefix passes a member over without asking it.
+    chm = fs.methods('FileSystemChain')
+    for mn_ in ('_get_file', '_file_exists', 'open_bin', 'open_str'):
+        cf_ = chm.get(mn_)
+        if cf_ is None:
+            continue
+        for lp_ in [l for l in walk_no_nested(cf_) if isinstance(l, ast.For) and 'systems' in U(l.iter)]:
+            for cont_ in [c for c in ast.walk(lp_) if isinstance(c, ast.Continue)]:
+                guards_ = [a for a in _anc19(fs, cont_, lp_) if isinstance(a, ast.If)]
+                in_handler = any(isinstance(a, ast.ExceptHandler) for a in _anc19(fs, cont_, lp_))
+                if guards_ and not in_handler:
+                    ctx.check('C19.H4', False, fs, guards_[0], f'FileSystemChain.{mn_} passes a member over when `{U(guards_[0].test)[:60]}` without asking it for the name: a member whose prefix is spelled differently from the '
+                              'normalised query (backslashes, case) is skipped by every lookup although walk_folder lists its files', func=f'FileSystemChain.{mn_}', text=f'{mn_}: every member is asked in order')
     # ---- H5: the directory backend's two existence tests agree (and mean "is a file": the other backends only index files) ---------------
     ctx.rule('C19.H5', 'RawFileSystem._file_exists and _get_file use the same "is a file" test on the resolved path', floor=2)
     rawm = fs.methods('RawFileSystem')
